@@ -6,6 +6,7 @@ It should not be considered part of the public API.
 
 from __future__ import annotations
 
+import builtins
 import logging
 from argparse import (
     SUPPRESS,
@@ -365,7 +366,7 @@ class ControlParser(ArgumentParser):
                 flag = f"-{letter.upper()}"
                 self._flags.add(letter.upper())
             name_or_flags = [long] if flag is None else [flag, long]
-            if parameter.annotation is bool:
+            if parameter.annotation is bool or parameter.annotation == "bool":
                 # If we are dealing with a boolean parameter, always use the
                 # 'store_true' action. Even if the parameter's default value is
                 # `True`, this will make the parser argument's default `False`.
@@ -447,6 +448,33 @@ def _get_arg_type_wrapper(cls: Type[Any]) -> Callable[[Any], Any]:
     return wrapper
 
 
+def _resolve_postponed_annotation(annotation: str) -> Any:
+    """
+    Returns the object to convert with for a postponed (string) annotation.
+
+    With `from __future__ import annotations` the annotations of the pool
+    methods are plain strings; they are classified by their text, because the
+    names they refer to may only exist for type checkers.
+    """
+    text = annotation.replace(" ", "")
+    for optional in ("|None", "None|"):
+        text = text.replace(optional, "")
+    if text.startswith("Optional[") and text.endswith("]"):
+        text = text[len("Optional[") : -1]
+    if text.startswith("Callable") or text in (
+        "AnyCoroutineFunc",
+        "EndCB",
+        "CancelCB",
+    ):
+        return AnyCoroutineFunc
+    if text.startswith(("Iterable", "Mapping", "ArgsT", "KwArgsT")) or text.endswith(
+        (".args", ".kwargs")
+    ):
+        return ArgsT
+    builtin = getattr(builtins, text, None)
+    return builtin if isinstance(builtin, type) else str
+
+
 def _get_type_from_annotation(annotation: Any) -> Callable[[Any], Any]:
     """
     Returns a type conversion function based on the `annotation` passed.
@@ -459,6 +487,8 @@ def _get_type_from_annotation(annotation: Any) -> Callable[[Any], Any]:
     `Iterable`- or args/kwargs-type annotations use `ast.literal_eval`.
     Others pass unchanged (but still wrapped with `_get_arg_type_wrapper`).
     """
+    if isinstance(annotation, str):
+        annotation = _resolve_postponed_annotation(annotation)
     if any(annotation is t for t in (AnyCoroutineFunc, EndCB, CancelCB)):
         annotation = resolve_dotted_path
     if any(
